@@ -1,7 +1,7 @@
 """C17 — choice, sequence and leaf accessors reflect what was matched (preconditions of the parametricity argument + leaf data-flow)."""
 import re
 
-from .. import facts, edt, nodes, classes
+from .. import facts, edt, nodes, classes, tt
 from ..hir import walk, strip_generics
 
 PN = "pest_typed::predefined_node::"
@@ -17,9 +17,9 @@ def variant_of_pat(p):
 
 
 def run(ctx):
-    fs = facts.load("core", "fx_macros")
-    world = nodes.World(fs, ["pest_typed", "fx_macros"])
-    ctx.analysed = {"crates": ["pest_typed", "fx_macros"]}
+    fs = facts.load("core", "fx_macros", "fx_mc")
+    world = nodes.World(fs, ["pest_typed", "fx_macros", "fx_mc"])
+    ctx.analysed = {"crates": ["pest_typed", "fx_macros", "fx_mc (derive output incl. generated Choice12 / 13 / 17)"]}
     rp = ctx.rule("R17-PARAM", "ChoiceN: N variants, variant i named _i holds the i-th type parameter, accessor _i reads variant _i, helper "
                                "chain passes variant k on unchanged; SeqN: content is the tuple of the N parameters in order; parameters pairwise distinct")
     ro = ctx.rule("R17-ORDER", "alternatives are tried in type-parameter order and the first match wins (class CHOICE with children in parameter order); "
@@ -273,6 +273,55 @@ def run(ctx):
             else:
                 rl.violate(bid, "iterator is %s, expected %s over content in order (mapped to .matched)" % (d, want), c.loc(c.body(bid)["value"].get("sp")))
     rl.require(15, "leaf / iterator functions")
+    # match_choices!: read the expanded `match` from the typed HIR of the fixture (arities 2, 3, 11 = runtime ChoiceN; 12, 13, 17 = derive-generated)
+    rm = ctx.rule("R17-MC", "match_choices!: in the expansion arm i matches variant _i of ChoiceN, binds the i-th alternative's node and keeps the "
+                            "i-th body; for N >= 12 the ChoiceN is the one the derive generates (variant _i holds alternative i)")
+    try:
+        fm = facts.load("fx_mc")["fx_mc"]
+        exp_mc = tt.load_expect("fx_mc")
+    except facts.BuildFailed as ex:
+        fm = None
+        rm.violate("fx_mc", "fixture does not compile: %s" % str(ex)[:300])
+    if fm is not None:
+        for mod, info in sorted(exp_mc["modules"].items()):
+            n_alt = info["arity"]
+            b = fm.body("fx_mc::%s::pick" % mod)
+            key = "%s: match_choices! over %d alternatives" % (mod, n_alt)
+            if b is None:
+                rm.violate(key, "fixture function missing")
+                continue
+            ms = [m for m in walk(b["value"]) if m["k"] == "match" and m.get("src") == "normal"]
+            if len(ms) != 1:
+                rm.violate(key, "expected exactly one `match` in the expansion, found %d" % len(ms))
+                continue
+            arms = ms[0]["arms"]
+            bad = None
+            if len(arms) != n_alt:
+                bad = "%d arms for %d alternatives" % (len(arms), n_alt)
+            for i, arm in enumerate(arms):
+                if bad:
+                    break
+                pat = arm["pat"]
+                while pat["k"] in ("ref", "deref"):
+                    pat = pat["p"]
+                path = (pat.get("res") or {}).get("path", "")
+                if not re.search(r"::Choice%d::_%d$" % (n_alt, i), path):
+                    bad = "arm %d matches %s, expected variant _%d of Choice%d" % (i, path or pat["k"], i, n_alt)
+                    break
+                binds = [q for q in pat.get("ps", []) if q["k"] == "bind"]
+                ty = fm.tys(binds[0]["ty"]) if binds and binds[0].get("ty") is not None else "?"
+                if not re.search(r"::rules::a%d<" % i, ty):
+                    bad = "arm %d binds a value of type %s, expected the node of alternative a%d" % (i, ty, i)
+                    break
+                lits = [m["v"]["int"] for m in walk(arm["body"]) if m["k"] == "lit" and m.get("v") and "int" in m["v"]]
+                if lits != [str(100 + i)]:
+                    bad = "arm %d carries the body of another arm (literal %s, expected %d)" % (i, lits, 100 + i)
+                    break
+            if bad:
+                rm.violate(key, bad, fm.loc(ms[0].get("sp")))
+            else:
+                rm.inst(key, fm.loc(ms[0].get("sp")), "ok", {"choice": (arms[0]["pat"].get("res") or {}).get("path", "").rsplit("::", 1)[0]})
+        rm.require(6, "arities")
     ctx.assume("parametricity: ChoiceN / SeqN / helper enums are generic over distinct type parameters, so rustc itself rejects routing a payload "
                "to a variant or slot of another parameter; the rules check the preconditions and the parts types do not cover")
     ctx.assume("match_choices! expansion and generated arities >= 12 are decided by the generator-template rules under C20 (R17-MC)")
